@@ -5,11 +5,12 @@ using namespace squids;
 extern "C" int h_prepare(unsigned d, double* hh, double t, double* buf){
   try{ SU_vector H(d,hh); H.PrepareEvolve(buf,t); return 0; }catch(...){ return 1; }
 }
-extern "C" int h_prep_avg(unsigned d, double* hh, double t, double scale, double* buf, unsigned* flags){
+// init: previous content of the caller's flag vector (0 all false, 1 all true): the call must set every flag either way
+extern "C" int h_prep_avg(unsigned d, double* hh, double t, double scale, double* buf, unsigned* flags, unsigned init){
   try{
     SU_vector H(d,hh);
     unsigned np=d*(d-1)/2;
-    std::vector<bool> avr(np);
+    std::vector<bool> avr(np, init!=0);
     H.PrepareEvolve(buf,t,scale,avr);
     for(unsigned i=0;i<np;i++) flags[i]=avr[i]?1u:0u;
     return 0;
